@@ -247,6 +247,9 @@ func (x *ctx) runSchnorrE(c Case, a [][]byte, o *vlib.Oracle, useOracle bool, ke
 	r.Eval("schnorre/"+c.Class, key)
 	ge := new(big.Int).SetBytes(a[2]).Cmp(refN)
 	r.Hit(fmt.Sprintf("schnorre e-cmp-n=%d real=%s ref=%s", ge, boolStr(real), boolStr(ref)))
+	if len(a[1]) == 64 && new(big.Int).SetBytes(a[1][:32]).Cmp(refP) >= 0 {
+		r.Hit("schnorre r>=p real=" + boolStr(real))
+	}
 	if p != "" {
 		x.tie(c, "SchnorrVerify's steps panicked with an injected challenge: "+p)
 		return
@@ -257,13 +260,16 @@ func (x *ctx) runSchnorrE(c Case, a [][]byte, o *vlib.Oracle, useOracle bool, ke
 	}
 	if useOracle {
 		rep := strings.Fields(o.MustAsk("schnorre " + strings.Join(c.Args, " ")))
-		if len(rep) != 2 || rep[0] != boolStr(real) {
+		if len(rep) != 3 || rep[0] != boolStr(real) {
 			x.tie(c, "model schnorrVerify (H = const e)="+strings.Join(rep, " ")+" real steps="+boolStr(real))
 		} else {
 			r.TieOK()
 		}
-		if len(rep) == 2 && rep[0] != rep[1] {
+		if len(rep) == 3 && rep[0] != rep[1] {
 			x.tie(c, "theorem schnorr_accept_iff contradicted at a constant hash: model="+rep[0]+" spec="+rep[1])
+		}
+		if len(rep) == 3 && rep[1] != rep[2] {
+			x.tie(c, "Spec.Bip340.verify="+rep[1]+" but the BIP-text form verifyText="+rep[2]+" at a constant hash (theorem schnorr_accept_text_partial: would exhibit a curve point whose order does not divide n)")
 		}
 	}
 }
@@ -343,8 +349,54 @@ func (ge *gen) eGeN() *big.Int {
 	}
 }
 
+// schnorrERplusP: BIP340 "fail if r >= p". A signature whose first half is x(R) + p (same residue mod p as
+// the nonce point's x) must be refused although the equation holds for the reduced value. That needs a
+// nonce point with x(R) < 2^256 - p = 2^32 + 977 — nobody knows the logarithm of one, and with the real
+// challenge hash the key cannot be solved for (e depends on the key). With an INJECTED challenge it can:
+// pick R from the tiny-x table (even y), pick s and e, and put P = e^-1 (s*G - R); then s*G - e*P = R.
+// So this class discriminates "rx compared raw" from "rx normalised before Equals" on SchnorrVerify's
+// re-assembled steps, on the Lean model and on both Lean specs — NOT on btc.SchnorrVerify itself.
+func (ge *gen) schnorrERplusP(oracle bool) (Case, bool) {
+	g := ge.g
+	for try := 0; try < 8; try++ {
+		R := refLiftX(ge.smallX[g.Intn(len(ge.smallX))].x) // even y
+		e := ge.scalar()
+		cls := "e-lt-n"
+		if g.Bool() {
+			e = ge.eGeN()
+			cls = "e-ge-n"
+		}
+		er := new(big.Int).Mod(e, refN)
+		if er.Sign() == 0 {
+			continue
+		}
+		s := ge.scalar()
+		T := refAdd(refMul(s, refG()), refNeg(R))
+		if T == nil {
+			continue
+		}
+		P := refMul(new(big.Int).ModInverse(er, refN), T)
+		if P == nil || P.y.Bit(0) == 1 { // the x-only key lifts to the even-y point: P itself must be it
+			continue
+		}
+		pk := be32(P.x)
+		switch g.Intn(3) {
+		case 0: // the canonical signature: accepted
+			return mk("schnorre", cls+"-small-r-valid", oracle, pk, append(be32(R.x), be32(s)...), be32(e)), true
+		default: // r + p in 32 bytes: refused
+			return mk("schnorre", cls+"-r-plus-p", oracle, pk, append(be32(new(big.Int).Add(R.x, refP)), be32(s)...), be32(e)), true
+		}
+	}
+	return Case{}, false
+}
+
 func (ge *gen) schnorrE(oracle bool) Case {
 	g := ge.g
+	if g.Intn(6) == 0 {
+		if c, ok := ge.schnorrERplusP(oracle); ok {
+			return c
+		}
+	}
 	d := ge.scalar()
 	P := refMul(d, refG())
 	if P.y.Bit(0) == 1 {
